@@ -25,6 +25,8 @@ def seq_scenario(seq, mode="folder", nested=False, alter=None, restore=None, see
             op["sf"] = ["a.txt", "s/b.txt", "s_proxy/d.txt"]
             if (seed + i) % 2 == 1:
                 op["sf_raw"] = ["s/../a.txt", "./s//b.txt", "s_proxy/./d.txt"]
+            elif (seed + i) % 3 == 0:
+                op["spell"] = "symlink"
         ops.append(op)
     return {"root": "root", "tree": tree, "ops": ops, "c04": {"seq": seq, "mode": mode, "nested": nested, "alter": alter, "restore": restore}}
 
